@@ -26,8 +26,8 @@ type ExpandTask struct {
 	Cfg      string       `json:"cfg"`
 	Path     []pagedrv.Op `json:"path"`
 	Alphabet []pagedrv.Op `json:"alphabet"`
-	Key      string       `json:"key"`   // expected key at the end of Path ("" for the root)
-	Flags    []string     `json:"flags"` // per-check behaviour switches understood by the child
+	Key      string       `json:"key"`             // expected key at the end of Path ("" for the root)
+	Flags    []string     `json:"flags"`           // per-check behaviour switches understood by the child
 	Judge    bool         `json:"judge,omitempty"` // also report what the oracles say about Path itself (root of a seeded search)
 }
 
@@ -264,10 +264,10 @@ func (n *Node) Path() []pagedrv.Op {
 
 // Spec describes one search.
 type Spec struct {
-	Seed      []pagedrv.Op // history executed before the search starts (non-initial start state); must end without an open transaction
+	Seed []pagedrv.Op // history executed before the search starts (non-initial start state); must end without an open transaction
 	// Seeds: several start states searched together (one frontier, shared
 	// duplicate detection); used instead of Seed.
-	Seeds [][]pagedrv.Op
+	Seeds     [][]pagedrv.Op
 	Cfg       pagedrv.Cfg
 	Alphabet  []pagedrv.Op
 	MaxDepth  int
